@@ -1,4 +1,5 @@
-"""Everything of src/ecdsa that no other generator sees -> Generated/RestGuards.lean (namespace Gen.Rest), skeleton + guards.
+"""Everything of src/ecdsa that no other generator sees (except the presentation-only methods `Curve.__repr__`,
+`Point.__str__`, `VerifyingKey.__repr__`: no property speaks about them, so a change there is not an obligation) -> Generated/RestGuards.lean (namespace Gen.Rest), skeleton + guards.
 
 `harness/tiecoverage.py` (mutation audit) lists the places of the library no translator covers: the module-level
 statements of every module (imports such as `from ._compat import …`, constants, `__all__`, the GMPY / Python-version
@@ -33,7 +34,6 @@ FUNCS = [
     ("_compat", "hmac_compat", 3),
     ("_compat", "normalise_bytes", 2),
     ("_compat", "remove_whitespace", 3),
-    ("curves", "Curve.__repr__", 1),
     ("der", "oid_to_text", 1),
     ("ecdsa", "Signature.__init__", 1),
     ("ecdsa", "Public_key.__eq__", 1),
@@ -44,13 +44,11 @@ FUNCS = [
     ("ecdsa", "int_to_string", 1),
     ("ecdsa", "string_to_int", 1),
     ("ecdsa", "digest_integer", 1),
-    ("ellipticcurve", "Point.__str__", 1),
     ("ellipticcurve", "Point.x", 1),
     ("ellipticcurve", "Point.y", 1),
     ("ellipticcurve", "Point.curve", 1),
     ("ellipticcurve", "Point.order", 1),
     ("keys", "VerifyingKey.__init__", 1),
-    ("keys", "VerifyingKey.__repr__", 1),
     ("keys", "VerifyingKey.__eq__", 1),
     ("keys", "VerifyingKey.__ne__", 1),
     ("keys", "SigningKey.__init__", 1),
